@@ -298,8 +298,6 @@ def body_forms(case, ctx):
     if not np.isfinite(kappa) or kappa > 1e8:
         raise Inconclusive("ill-conditioned")
     tol = 1e-9 + 1000 * kappa * EPS
-    if "float32" in f.values():
-        tol = max(tol, 1e-5 * max(kappa, 1.0))
     what = ", ".join(f"{k}={v}" for k, v in f.items())
     for meth in ("gradient", "spatial_derivatives"):
         with np.errstate(all="ignore"):
